@@ -11,20 +11,21 @@ KC(s) == [i \in DOMAIN s |-> <<s[i].k, s[i].c>>]
 \* memtable-flow rows (each in delivery order), plus disk and list projections
 ObsNext == [rows |-> [t \in Types |-> [seg |-> KC(SegRows(t)'), mem |-> KC(MemRows(t)')]],
             live |-> live', segs |-> DOMAIN dirs', idx |-> {<<s, idx'[s]>> : s \in DOMAIN idx'},
-            wal |-> DOMAIN wal', memlen |-> Len(mem'), nextL0 |-> nextL0',
+            wal |-> DOMAIN wal',
+            dirrows |-> {<<s, t, KC(dirs'[s][t])>> : s \in DOMAIN dirs', t \in Types}, memlen |-> Len(mem'), nextL0 |-> nextL0',
             fired |-> fired']
 
 GenInit == Init /\ hist = <<>>
 GenNext ==
   /\ Len(hist) < GenLen
-  /\ \/ \E t \in Types, c \in Ctxs, cr \in FlushStages, p \in SUBSET Types :
+  /\ \/ \E t \in Types, c \in Ctxs, cr \in FlushCrash \cup {"none"}, p \in SUBSET Types :
           /\ Store(t, c, cr, p)
           /\ hist' = Append(hist, [cmd |-> "store", k |-> nstored + 1, t |-> t, c |-> c,
                                    crash |-> cr, part |-> p, obs |-> ObsNext])
-     \/ \E cr \in FlushStages, p \in SUBSET Types :
+     \/ \E cr \in FlushCrash \cup {"none"}, p \in SUBSET Types :
           /\ ManualFlush(cr, p)
           /\ hist' = Append(hist, [cmd |-> "flush", crash |-> cr, part |-> p, obs |-> ObsNext])
-     \/ \E cr \in CompactStages :
+     \/ \E cr \in CompactCrash \cup {"none"} :
           /\ Compact(cr)
           /\ hist' = Append(hist, [cmd |-> "compact", crash |-> cr, obs |-> ObsNext])
      \/ /\ CrashRestart
